@@ -6,16 +6,17 @@ import (
 
 // Plan is the swarm configuration of one run. It is drawn from the `plan` stream and stored in the trace.
 type Plan struct {
-	Profile     string     `json:"profile"`
-	CapInc      int        `json:"capInc"`
-	RelCapInc   int        `json:"relCapInc"`
-	Types       []TypeSpec `json:"types"`
-	ResTypes    int        `json:"resTypes"`
-	EntityCap   int        `json:"entityCap"`
-	MaxOpen     int        `json:"maxOpen"`
-	FullEvery   int        `json:"fullEvery"`
-	LockedYield int        `json:"lockedYield"` // percent of locked mutator turns handed to the iterator instead
-	Steps       int        `json:"steps"`
+	Profile      string     `json:"profile"`
+	CapInc       int        `json:"capInc"`
+	RelCapInc    int        `json:"relCapInc"`
+	Types        []TypeSpec `json:"types"`
+	ResTypes     int        `json:"resTypes"`
+	EntityCap    int        `json:"entityCap"`
+	MaxOpen      int        `json:"maxOpen"`
+	FullEvery    int        `json:"fullEvery"`
+	LockedYield  int        `json:"lockedYield"`  // percent of locked mutator turns handed to the iterator instead
+	RelFilterPct int        `json:"relFilterPct"` // percent of new filters that are relation filters
+	Steps        int        `json:"steps"`
 
 	Weights map[string]int `json:"weights"`
 
@@ -80,6 +81,7 @@ func GenPlan(profile string, seed uint64, thorough bool) *Plan {
 	p.MaxOpen = 1 + r.Intn(6)
 	p.FullEvery = []int{1, 1, 2, 4}[r.Intn(4)]
 	p.LockedYield = []int{50, 75, 90}[r.Intn(3)]
+	p.RelFilterPct = []int{15, 25, 45}[r.Intn(3)]
 	p.Steps = 40 + r.Intn(110)
 	if thorough && r.Intn(4) == 0 {
 		p.Steps = 150 + r.Intn(450)
@@ -205,7 +207,10 @@ func tuneProfile(p *Plan, r *Rng, thorough bool) {
 		w["reset"] = 2
 	case "C03":
 		w["qopen"], w["qnext"], w["qclose"] = 12, 30, 6
-		w["fnew"] = 8
+		w["fnew"], w["freg"] = 8, 6
+		w["batch"], w["setrel"], w["rm"] = 12, 10, 10
+		p.RelFilterPct = []int{25, 45, 60}[r.Intn(3)]
+		p.CachedPermille = []int{300, 600, 900}[r.Intn(3)]
 		p.IllegalPermille = []int{0, 30}[r.Intn(2)]
 	case "C05":
 		w["setrel"], w["xchg"], w["new"] = 16, 20, 16
@@ -214,11 +219,14 @@ func tuneProfile(p *Plan, r *Rng, thorough bool) {
 		w["setrel"], w["rm"], w["batch"], w["new"] = 16, 18, 12, 18
 		p.EntityCap = 6 + r.Intn(24)
 		w["reset"] = 2
+		w["fnew"], w["freg"] = 6, 6
+		p.RelFilterPct = []int{30, 50, 70}[r.Intn(3)]
 	case "C07":
 		w["fnew"], w["freg"], w["funreg"] = 10, 12, 3
 		w["batch"], w["rm"], w["setrel"] = 14, 12, 12
 		w["reset"] = 3
 		p.CachedPermille = []int{600, 900}[r.Intn(2)]
+		p.RelFilterPct = []int{30, 50, 70}[r.Intn(3)]
 		p.EntityCap = 6 + r.Intn(30)
 	case "C08":
 		w["batch"], w["newbatch"] = 24, 12
@@ -276,11 +284,25 @@ func tuneProfile(p *Plan, r *Rng, thorough bool) {
 			}
 			p.Dispatch = append(p.Dispatch, sub)
 		}
+	case "C13":
+		w["setrel"], w["rm"], w["new"], w["batch"] = 18, 16, 18, 12
+		w["fnew"], w["freg"], w["funreg"] = 8, 10, 2
+		w["reset"] = 3
+		p.Listener = "all"
+		p.CachedPermille = []int{300, 600, 900}[r.Intn(3)]
+		p.IllegalPermille = []int{0, 30}[r.Intn(2)]
+		p.EntityCap = 10 + r.Intn(40)
+	case "C19":
+		p.ListenerChaos = false
+		w["reset"] = 2
+		w["regtype"] = 4
 	case "C15":
 		w["reset"] = 5
 		p.FreshTwin = true
 		w["fnew"], w["freg"] = 8, 8
 		w["setrel"], w["rm"] = 12, 12
+		p.RelFilterPct = []int{30, 50, 70}[r.Intn(3)]
+		p.EntityCap = 5 + r.Intn(20)
 		p.CachedPermille = []int{300, 900}[r.Intn(2)]
 	case "C16":
 		w["regtype"] = 10
